@@ -175,6 +175,36 @@ def decoder_targets(prog):
             continue
         if f.name.startswith("unmarshall_") and f.name not in ("unmarshall_cdb",):
             out.append(f)
+    # a decoder a class gets by assignment: functools.partial over a function written elsewhere
+    for c in prog.classes():
+        for k, v in c.attrs.items():
+            if k.startswith("unmarshall_") and k != "unmarshall_cdb" and isinstance(v, PartialVal) and isinstance(v.fn, FuncVal) and not v.kwargs:
+                t = FuncVal(k, v.fn.node, v.fn.module, kind="function")
+                t.qualname = "%s.%s" % (c.qualname, k)
+                t.partial = v
+                t.skip = len(v.args)
+                t.defaults, t.kw_defaults = getattr(v.fn, "defaults", []), getattr(v.fn, "kw_defaults", [])
+                out.append(t)
+    return out
+
+
+def inherited_decoders(prog, targets):
+    """(class, name) pairs that resolve to a decoder written in a base class other than the root of the hierarchy: the class
+    has that decoder although its own body does not spell it out"""
+    own = set((f.cls.qualname, f.name) for f in targets if f.cls is not None)
+    out = []
+    for c in sorted(prog.classes(), key=lambda c: c.qualname):
+        names = set(k for b in c.mro()[1:] if isinstance(b, ClassVal) for k in b.attrs if k.startswith("unmarshall_") and k != "unmarshall_cdb")
+        for k in sorted(names):
+            v, owner = c.lookup(k)
+            if owner is not None and owner is not c and owner.name != "SCSICommand" and (owner.qualname, k) in own and (c.qualname, k) not in own \
+                    and isinstance(v, FuncVal):
+                # the same code, run as the subclass runs it (its tables, its hooks)
+                t = FuncVal(v.name, v.node, v.module, kind=v.kind, cls=c, closure=v.closure)
+                t.qualname = "%s:%s.%s" % (c.module.name if c.module else "?", c.name, k)
+                t.defaults, t.kw_defaults = getattr(v, "defaults", []), getattr(v, "kw_defaults", [])
+                t.inherited_from = v
+                out.append(t)
     return out
 
 
@@ -242,9 +272,10 @@ def check(prog, run):
     seen_loops = {}
     for_ranges = set()
     undecided = []
+    targets = targets + inherited_decoders(prog, targets)
     for f in targets:
         nfunc += 1
-        params = [p.arg for p in f.node.args.args]
+        params = [p.arg for p in f.node.args.args][getattr(f, "skip", 0):]
         file = prog.file_of(f)
 
         def th(f=f, params=params):
@@ -269,7 +300,7 @@ def check(prog, run):
                 # READ CD: the per-sector layout flags only select straight-line slices (no loop depends on them)
                 kw = {"est": 1, "mcsb": 0x1F, "c2ei": 1, "scsb": 2}
             fn = I.get_attr(f.cls, f.name, None, _F()) if f.kind != "function" else f
-            return I.call(fn, args, kw, None, _F())
+            return I.call(getattr(f, "partial", None) or fn, args, kw, None, _F())
         try:
             paths = I.explore(th, max_paths=3000)
         except AnalysisError as e:
